@@ -5,7 +5,7 @@ from props import enginecorr
 
 MODEL_DEPS = ['CheckLib']
 KERNELS = ('StaticHash', 'StaticEdge', 'FunctionEdge', 'ComputableHashBase', 'CacheEdge', 'HashBarrier', 'SwitchEdge',
-           'EvictionCache', 'Graph', 'CachedColumn', 'CacheColumns')
+           'EvictionCache', 'Graph', 'CachedColumn', 'CacheColumns', 'execute')
 TRUSTED = ['Coq 8.16.1 kernel; vm_compute in case shards and the Example',
            'tools/translate.py for the generator bodies; hand-written VM.step tied by the trace correspondence',
            'the exact call log is compared between Model/VM.v and the real engine on every generated case (correspondence, a sample)']
